@@ -400,11 +400,12 @@ theorem purge_complete {s : State} (n : String) (h : CntGe s) (r : Attribute)
   subst hn
   exact hr.2 ⟨holder_listed h hr.1, rfl⟩
 
-/-! ### the sweep -/
+/-! ### the sweep step before commit f2249cacd (the repaired step is either this one or a pure
+queue deletion, see `AttrSweep`) -/
 
-theorem expireOne_recs (s : State) (q : Nat × Key) (r : Attribute) :
-    r ∈ (expireOne s q).recs ↔ (r ∈ s.recs ∧ r.key ≠ q.2) := by
-  unfold expireOne
+theorem expireOnePreFix_recs (s : State) (q : Nat × Key) (r : Attribute) :
+    r ∈ (expireOnePreFix s q).recs ↔ (r ∈ s.recs ∧ r.key ≠ q.2) := by
+  unfold expireOnePreFix
   cases h : getAttr s q.2 with
   | none =>
     simp only []
@@ -413,43 +414,43 @@ theorem expireOne_recs (s : State) (q : Nat × Key) (r : Attribute) :
     · intro hr; exact hr.1
   | some a => simp [List.mem_filter]
 
-theorem expireOne_recs_eq (s : State) (q : Nat × Key) :
-    ∃ p : Attribute → Bool, (expireOne s q).recs = s.recs.filter p := by
-  unfold expireOne
+theorem expireOnePreFix_recs_eq (s : State) (q : Nat × Key) :
+    ∃ p : Attribute → Bool, (expireOnePreFix s q).recs = s.recs.filter p := by
+  unfold expireOnePreFix
   cases h : getAttr s q.2 with
   | none => exact ⟨fun _ => true, (List.filter_eq_self.mpr (by simp)).symm⟩
   | some a => exact ⟨fun r => decide (r.key ≠ q.2), by simp⟩
 
-theorem expireOne_names (s : State) (q : Nat × Key) : (expireOne s q).names = s.names := by
-  unfold expireOne
+theorem expireOnePreFix_names (s : State) (q : Nat × Key) : (expireOnePreFix s q).names = s.names := by
+  unfold expireOnePreFix
   cases h : getAttr s q.2 <;> simp
 
-theorem expireOne_now (s : State) (q : Nat × Key) : (expireOne s q).now = s.now := by
-  unfold expireOne
+theorem expireOnePreFix_now (s : State) (q : Nat × Key) : (expireOnePreFix s q).now = s.now := by
+  unfold expireOnePreFix
   cases h : getAttr s q.2 <;> simp
 
-theorem expireOne_queue (s : State) (q q' : Nat × Key) :
-    q' ∈ (expireOne s q).queue ↔ (q' ∈ s.queue ∧ q' ≠ q) := by
-  unfold expireOne
+theorem expireOnePreFix_queue (s : State) (q q' : Nat × Key) :
+    q' ∈ (expireOnePreFix s q).queue ↔ (q' ∈ s.queue ∧ q' ≠ q) := by
+  unfold expireOnePreFix
   cases h : getAttr s q.2 <;> simp [List.mem_filter]
 
-theorem expireOne_some_cnt {s : State} {q : Nat × Key} {a : Attribute} (h : getAttr s q.2 = some a) :
-    (expireOne s q).cnt = (decAttrNameAddressLookup (delRec s q.2) a.name a.addr).cnt := by
-  unfold expireOne; rw [h]
+theorem expireOnePreFix_some_cnt {s : State} {q : Nat × Key} {a : Attribute} (h : getAttr s q.2 = some a) :
+    (expireOnePreFix s q).cnt = (decAttrNameAddressLookup (delRec s q.2) a.name a.addr).cnt := by
+  unfold expireOnePreFix; rw [h]
 
-theorem expireOne_some_recs {s : State} {q : Nat × Key} {a : Attribute} (h : getAttr s q.2 = some a) :
-    (expireOne s q).recs = (delRec s q.2).recs := by
-  unfold expireOne; rw [h]; simp
+theorem expireOnePreFix_some_recs {s : State} {q : Nat × Key} {a : Attribute} (h : getAttr s q.2 = some a) :
+    (expireOnePreFix s q).recs = (delRec s q.2).recs := by
+  unfold expireOnePreFix; rw [h]; simp
 
-theorem expireOne_none {s : State} {q : Nat × Key} (h : getAttr s q.2 = none) :
-    (expireOne s q).cnt = s.cnt ∧ (expireOne s q).recs = s.recs := by
-  unfold expireOne; rw [h]; exact ⟨rfl, rfl⟩
+theorem expireOnePreFix_none {s : State} {q : Nat × Key} (h : getAttr s q.2 = none) :
+    (expireOnePreFix s q).cnt = s.cnt ∧ (expireOnePreFix s q).recs = s.recs := by
+  unfold expireOnePreFix; rw [h]; exact ⟨rfl, rfl⟩
 
-theorem expireOne_cntGe {s : State} (q : Nat × Key) (h : CntGe s) : CntGe (expireOne s q) := by
+theorem expireOnePreFix_cntGe {s : State} (q : Nat × Key) (h : CntGe s) : CntGe (expireOnePreFix s q) := by
   cases hg : getAttr s q.2 with
   | none =>
     intro n x
-    obtain ⟨e1, e2⟩ := expireOne_none hg
+    obtain ⟨e1, e2⟩ := expireOnePreFix_none hg
     rw [count_congr e2, getCnt_congr e1]
     exact h n x
   | some a =>
@@ -459,65 +460,23 @@ theorem expireOne_cntGe {s : State} (q : Nat × Key) (h : CntGe s) : CntGe (expi
     rw [getCnt_deleteOne] at hd
     have hc : count (deleteOne s a) n x = count (delRec s a.key) n x := count_congr (by simp) n x
     rw [hc] at hd
-    rw [count_congr (expireOne_some_recs hg), getCnt_congr (expireOne_some_cnt hg), ← hk, getCnt_dec]
+    rw [count_congr (expireOnePreFix_some_recs hg), getCnt_congr (expireOnePreFix_some_cnt hg), ← hk, getCnt_dec]
     have h2 : ∀ n x, getCnt (delRec s a.key) n x = getCnt s n x := fun n x => getCnt_congr rfl n x
     simp only [h2]
     exact hd
 
-theorem expireOne_inv {s : State} (q : Nat × Key) (hi : Inv s) : Inv (expireOne s q) := by
-  refine ⟨?_, expireOne_cntGe q hi.cntGe, ?_, ?_⟩
-  · obtain ⟨p, hp⟩ := expireOne_recs_eq s q
+theorem expireOnePreFix_inv {s : State} (q : Nat × Key) (hi : Inv s) : Inv (expireOnePreFix s q) := by
+  refine ⟨?_, expireOnePreFix_cntGe q hi.cntGe, ?_, ?_⟩
+  · obtain ⟨p, hp⟩ := expireOnePreFix_recs_eq s q
     rw [hp]; exact hi.keys.filter p
   · intro r hr
-    rw [nameExists_congr (expireOne_names s q)]
-    exact hi.bound r ((expireOne_recs s q r).mp hr).1
+    rw [nameExists_congr (expireOnePreFix_names s q)]
+    exact hi.bound r ((expireOnePreFix_recs s q r).mp hr).1
   · intro r hr e he
-    obtain ⟨hr1, hr2⟩ := (expireOne_recs s q r).mp hr
-    rw [expireOne_queue]
+    obtain ⟨hr1, hr2⟩ := (expireOnePreFix_recs s q r).mp hr
+    rw [expireOnePreFix_queue]
     refine ⟨hi.queueComplete r hr1 e he, ?_⟩
     intro heq
     exact hr2 (by rw [← heq])
-
-theorem foldl_expireOne_inv (l : List (Nat × Key)) : ∀ s : State, Inv s → Inv (l.foldl expireOne s) := by
-  induction l with
-  | nil => intro s h; exact h
-  | cons q t ih => intro s h; simp only [List.foldl_cons]; exact ih _ (expireOne_inv q h)
-
-theorem foldl_expireOne_recs (l : List (Nat × Key)) :
-    ∀ (s : State) (r : Attribute),
-      r ∈ (l.foldl expireOne s).recs ↔ (r ∈ s.recs ∧ ∀ q ∈ l, r.key ≠ q.2) := by
-  induction l with
-  | nil => intro s r; simp
-  | cons q t ih =>
-    intro s r
-    simp only [List.foldl_cons]
-    rw [ih, expireOne_recs]
-    simp only [List.mem_cons, forall_eq_or_imp]
-    constructor
-    · rintro ⟨⟨h1, h2⟩, h3⟩; exact ⟨h1, h2, h3⟩
-    · rintro ⟨h1, h2, h3⟩; exact ⟨⟨h1, h2⟩, h3⟩
-
-theorem foldl_expireOne_names (l : List (Nat × Key)) : ∀ s : State, (l.foldl expireOne s).names = s.names := by
-  induction l with
-  | nil => intro s; rfl
-  | cons q t ih => intro s; simp only [List.foldl_cons]; rw [ih, expireOne_names]
-
-theorem foldl_expireOne_now (l : List (Nat × Key)) : ∀ s : State, (l.foldl expireOne s).now = s.now := by
-  induction l with
-  | nil => intro s; rfl
-  | cons q t ih => intro s; simp only [List.foldl_cons]; rw [ih, expireOne_now]
-
-theorem foldl_expireOne_queue (l : List (Nat × Key)) :
-    ∀ (s : State) (q' : Nat × Key), q' ∈ (l.foldl expireOne s).queue ↔ (q' ∈ s.queue ∧ q' ∉ l) := by
-  induction l with
-  | nil => intro s q'; simp
-  | cons q t ih =>
-    intro s q'
-    simp only [List.foldl_cons]
-    rw [ih, expireOne_queue]
-    simp only [List.mem_cons, not_or]
-    constructor
-    · rintro ⟨⟨h1, h2⟩, h3⟩; exact ⟨h1, h2, h3⟩
-    · rintro ⟨h1, h2, h3⟩; exact ⟨⟨h1, h2⟩, h3⟩
 
 end PvProofs.Lemmas.AttrInv
